@@ -109,8 +109,54 @@ def run_config(cfg, seed, cache):
     if rng.random() < 0.35:
         x0_buffer = np.array(x0, float)         # the caller's own array, re-used after the loss object was built
         x0_arg = x0_buffer
+    # the caller's observation array may be re-used as well (written into after the loss object was built)
+    # (a single column of observations: the constructor takes its own flat copy of it; a table of several columns is kept
+    # by reference on the pinned tree, which no listed property forbids, so that case is not exercised)
+    y_buffer = None
+    if y.shape[1] == 1 and rng.random() < 0.5:
+        y_buffer = np.array(yy, float, copy=True)
+        yy = y_buffer
     args = (list(start), m, x0_arg, t0, times, yy, obs if len(obs) > 1 else obs[0])
     kw = dict(target_param=tp)
+    # all parameters free, in model order: target_param may simply be left out
+    if free == list(range(len(theta_true))) and rng.random() < 0.5:
+        kw = {}
+    # what happened to the shared model object before the fit (the non-free parameters end at their generating values)
+    pre = rng.choice(["none", "none", "mixed-styles", "other-loss", "random-then-numbers"])
+    if not kw:
+        # the fit will then assign plain vectors: most interesting after name-keyed assignments by somebody else
+        pre = rng.choice(["other-loss", "other-loss", "mixed-styles", "none"])
+    res["pre_history"] = pre
+    try:
+        import sympy
+        names = list(sy.params)
+        if pre == "mixed-styles":
+            # (the model was given a plain vector above) a symbol-keyed update of one parameter, then the vector again,
+            # or name/value pairs in reverse order and a name-keyed update
+            # (the one updated is a parameter the fit will NOT touch, when there is one: it must be back at its value)
+            fixed = [k for k in range(len(names)) if k not in free]
+            k0 = rng.choice(fixed) if fixed else free[0]
+            m.parameters = {sympy.Symbol(names[k0]): 1.3 * theta_true[k0]}
+            if rng.random() < 0.6:
+                m.parameters = list(theta_true)
+            else:
+                m.parameters = [(nm, v) for nm, v in zip(names, theta_true)][::-1]
+                m.parameters = {names[free[-1]]: 0.8 * theta_true[free[-1]]}
+        elif pre == "other-loss":
+            # another loss object on the same model, with a single target parameter, evaluated once
+            other = SquareLoss([1.2 * theta_true[free[0]]], m, list(x0), t0, times, np.array(y[:, 0], float), obs[0],
+                               target_param=[names[free[0]]])
+            other.cost()
+        elif pre == "random-then-numbers":
+            # the model carried a random binding; the user then gives numbers to the parameters that will stay fixed
+            import scipy.stats
+            m.parameters = {nm: scipy.stats.uniform(loc=0.9 * v, scale=0.2 * v) for nm, v in zip(names, theta_true)}
+            fixed = [k for k in range(len(names)) if k not in free]
+            if fixed:
+                m.parameters = {names[k]: theta_true[k] for k in fixed}
+    except Exception as ex:
+        res["raised"] = "pre-history raised: " + "".join(traceback.format_exception_only(type(ex), ex))[:300]
+        return res
     try:
         if cls == "Square":
             obj = SquareLoss(*args, **kw)
@@ -126,6 +172,8 @@ def run_config(cfg, seed, cache):
         xs = list(start) if form == "list" else np.array(start)
         if x0_buffer is not None:
             x0_buffer *= 1.6
+        if y_buffer is not None:
+            y_buffer *= 1.7
         ub_arg = [int(u) for u in ub] if int_ub else (list(ub) if rng.random() < 0.5 else np.array(ub))
         out = obj.fit(xs, lb=(list(lb) if rng.random() < 0.5 else np.array(lb)), ub=ub_arg)
         result = [float(v) for v in np.atleast_1d(out)]
@@ -158,7 +206,8 @@ def run_config(cfg, seed, cache):
     res["outcome"] = {"lb": lbr, "ub": ubr, "result": rr, "costStart": cost_start_rank, "costResult": cost_result_rank,
                       "noiseFree": bool(noise_free), "atGenerating": bool(at_gen)}
     res["numbers"] = {"start": start, "lb": lb, "ub": ub, "result": result, "cost_start": cs, "cost_result": cr,
-                      "generating": gen_free, "target_param": tp, "observed": obs}
+                      "generating": gen_free, "target_param": (tp if kw else None), "observed": obs, "pre_history": pre,
+                      "caller_buffers": {"x0": x0_buffer is not None, "y": y_buffer is not None}}
     return res
 
 
